@@ -120,6 +120,8 @@ def _alias(fn, muts, sig):
         return 'wavelet_center:border-huge:timeout'
     if short in MORPH_BC and any(n == 'Bc' and c.split(':')[-1] == 'zero-size' for n, c in muts):
         return 'morph:Bc-zero-size'
+    if short == 'disk' and any(n == 'dim' for n, _ in muts) and sig == 'timeout':
+        return 'disk:dim-huge:timeout'
     return None
 
 
@@ -137,6 +139,10 @@ def key_of(spec, muts, out):
     if not muts:                  # the valid call fails: same keys as C10's sweep
         from . import c10
         return c10.classify(spec, out)
+    if out['st'] == 'asan' and any(f.startswith('locmin_max@') for f in out.get('frames') or []):
+        from . import c10
+        if (c10._arg0(spec).get('layout') or 'C') in c10.NONC:      # the degenerate argument is irrelevant: C10's layout defect
+            return 'locminmax:layout'
     a = _alias(spec['fn'], muts, sig)
     if a:
         return a
